@@ -14,7 +14,7 @@ from lib import common
 from lib.coqrun import zlist, boolean, lst
 from lib.main import Case, Suite
 from props import lib_frontends as L
-from props.c12 import valid_pdu
+from props.c12 import valid_pdu, watchdog
 
 ID = "C17"
 GENERATORS = ["frontends"]
@@ -220,9 +220,10 @@ def build(tier):
                 spec, cfg, conns = make_session(r, framer, dgram)
                 for order in interleavings([len(c) for c in conns], cap, r):
                     res = {}
-                    for fe in fes:
-                        res[fe] = (run_dgram if dgram else run_interleaved)(fe, framer, spec, cfg, conns, order)
-                    ser = run_serial(fes[0], framer, spec, cfg, conns, order)
+                    with watchdog("C17", {"framer": framer, "ctx": spec, "order": list(order)}):
+                        for fe in fes:
+                            res[fe] = (run_dgram if dgram else run_interleaved)(fe, framer, spec, cfg, conns, order)
+                        ser = run_serial(fes[0], framer, spec, cfg, conns, order)
                     desc = {"framer": framer, "ctx": spec, "cfg": cfg, "dgram": dgram,
                             "conns": [[c[0].hex() for c in ch] for ch in conns],
                             "done": [[[f.hex() for f in c[1]] for c in ch] for ch in conns], "order": list(order),
